@@ -74,7 +74,8 @@ def pred_shape(crate, closure_expr):
     pred, cf, agg = q.closure_pred(crate, closure_expr)
     if pred is None:
         return None
-    return _desc(pred[0], pred[1], pred[2], lambda x: x[0] == 'param' and x[1] == 2)
+    ip = q.item_param(cf)
+    return _desc(pred[0], pred[1], pred[2], lambda x: x[0] == 'param' and x[1] == ip)
 
 
 def counting_loops(sh):
